@@ -17,6 +17,7 @@ is `.unknown` and makes the model never draw (so that the theorems stated for Ge
 import VaxisModel.Model.Window
 import VaxisModel.Model.Blocks
 import VaxisModel.Gen.ImageConsts
+import VaxisModel.Model.Placements
 
 namespace VaxisModel.Model.ImageDraw
 open VaxisModel.Model.Window VaxisModel.Model.Blocks
@@ -71,5 +72,25 @@ def placementCovers (w h dx dy : Int) : Prop := 0 ≤ dx ∧ dx < w ∧ 0 ≤ dy
 
 /-- The cells a `w × h` placement at the window's origin occupies, relative to the window. -/
 def placementInside (w h : Int) (win : Win) : Prop := w ≤ win.width ∧ h ≤ win.height
+
+/-! ### `Draw` as a step of the placement bookkeeping (round 3) -/
+
+/-- What an application does with kitty / sixel images between frames, with the windows it draws into: `Draw` of an
+    image (its method's gate list, whether it has data, whether its encoder runs, id, cell size) into a window;
+    `Window.Clear`; `Render`; `Refresh`. -/
+inductive AOp where
+  | drawImg (gates : List Gate) (hasData encoding : Bool) (id : Nat) (iw ih : Int) (win : Win)
+  | clear
+  | render
+  | refresh
+
+/-- The placement-level operations an application operation amounts to: a `Draw` appends the placement
+    `(id, win.Origin(), iw, ih)` to the next-frame list iff no gate returns. -/
+def lower : AOp → List VaxisModel.Spec.Images.Op
+  | .drawImg gates hasData encoding id iw ih win =>
+    if drawnWith gates hasData encoding iw ih win then [.draw ⟨id, (win.origin).1, (win.origin).2, iw, ih⟩] else []
+  | .clear => [.clear]
+  | .render => [.render]
+  | .refresh => [.refresh]
 
 end VaxisModel.Model.ImageDraw
